@@ -194,6 +194,9 @@ func (pb *PrimaryBlock) UnmarshalCbor(r io.Reader) error {
 
 	if crcT, err := cboring.ReadUInt(r); err != nil {
 		return err
+	} else if _, crcErr := emptyCRC(CRCType(crcT)); crcErr != nil {
+		// An unknown CRC type can neither be verified nor serialised again.
+		return crcErr
 	} else {
 		pb.CRCType = CRCType(crcT)
 	}
